@@ -553,6 +553,21 @@ func soleRootCaller(w *World, fn *ssa.Function) *ssa.Function {
 			callers = append(callers, p)
 		}
 	}
+	// a caller that is itself used at exactly one place, by another of the callers, is part of that caller (the look-ahead
+	// split off the read method)
+	if len(callers) > 1 {
+		var kept []*ssa.Function
+		for _, p := range callers {
+			sites := w.callSitesOf(p)
+			if len(sites) == 1 && sites[0].Parent() != p && seen[sites[0].Parent()] {
+				if obj := p.Object(); obj != nil && !obj.Exported() {
+					continue
+				}
+			}
+			kept = append(kept, p)
+		}
+		callers = kept
+	}
 	if len(callers) == 1 {
 		return callers[0]
 	}
